@@ -6,75 +6,217 @@
     operations: put / get / delete / nested-bucket create and delete / sequence
     / cursor calls, on buckets addressed by path, over arbitrary byte strings),
     every way the closure ends (nil, error, panic), every sequence of such
-    transactions.  Durability of a committed bbolt transaction across a close
-    and reopen of the file is trusted: [reopen] is the identity on the
-    committed tree. *)
-From Verif Require Import Base.Prelude KV.KV KV.KVProofs.
+    transactions, every interleaving of concurrent callers that the writer
+    lock admits.
+
+    What the managed calls db.Update / db.View / db.Batch do with their
+    transaction on each exit of the closure is NOT part of the hand-written
+    model: [code_flows] (Generated/TxFlow.v) is regenerated from
+    walletdb/bdb/db.go and walletdb/interface.go by lib/extract_c11.py (source
+    reader, behavioural probe as fallback and for Batch).  The theorems about
+    the managed calls are proved for every skeleton that rolls back on the
+    error and panic paths and commits only on nil ([safe_flows]) and are
+    instantiated here with the code's; [C11_code_skeleton_safe] is the
+    obligation that the code's skeleton is such a one.  A change of the code
+    that commits on panic, leaves a transaction open or swallows the closure's
+    error changes the generated file and breaks that obligation.
+
+    Durability of a committed bbolt transaction across a close and reopen of
+    the file is trusted: [reopen] is the identity on the committed tree. *)
+From Verif Require Import Base.Prelude KV.KV KV.KVProofs Generated.TxFlow.
 Local Open Scope N_scope.
 
+(** The skeleton regenerated from the code: Update and Batch commit exactly
+    when the closure returned nil and roll back when it returned an error and
+    when it panicked; View rolls its read transaction back on all three paths;
+    each of them returns nil for nil, the closure's own error for an error, and
+    lets the closure's own panic value through. *)
+Theorem C11_code_skeleton_safe : safe_flows code_flows.
+Proof. vm_compute. repeat split; reflexivity. Qed.
+Print Assumptions C11_code_skeleton_safe.
+
 (** (a) A managed update whose closure returns an error or panics leaves the
-    database exactly as before, and the writer lock is released. *)
-Theorem C11_failed_update_changes_nothing : forall s body o s' rs o',
-  o <> OOk -> update s body o = Some (s', rs, o') ->
-  committed s' = committed s /\ writer s' = false /\ o' = o.
-Proof. intros s body o s' rs o' N H. exact (update_failed s body o s' rs o' H N). Qed.
+    database exactly as before, the writer lock is released, no read
+    transaction is opened, and the caller gets the closure's error / panic.
+    Depends on the code through [C11_code_skeleton_safe] (rollback on both
+    paths); [C11_rollback_premise_needed] below shows the dependence is real. *)
+Theorem C11_failed_update_changes_nothing : forall s body o s' rs r,
+  o <> OOk -> update code_flows s body o = Some (s', rs, r) ->
+  committed s' = committed s /\ writer s' = false /\ readers s' = readers s /\ r = Some o.
+Proof.
+  intros s body o s' rs r N H. destruct C11_code_skeleton_safe as ((S & F) & _).
+  exact (update_failed code_flows s body o s' rs r S F H N).
+Qed.
 Print Assumptions C11_failed_update_changes_nothing.
 
-(** ... and the database stays usable: whatever mix of committed, failed and
-    panicking updates, views and manual transactions has run, the writer lock
-    is free afterwards, so the next transaction of any kind begins and runs
-    ([None] would be a BeginReadWriteTx that blocks for ever). *)
-Theorem C11_db_usable_after_any_history : forall txs,
-  exists s rss, run_txs init_db txs = Some (s, rss) /\ writer s = false /\
-    forall k body, exists s' rs o, run_tx s k body = Some (s', rs, o) /\ writer s' = false.
+(** The same for walletdb.Batch, however many times bbolt ran the closure
+    before the run that decided (attempts in a shared transaction are rolled
+    back and the closure is run again alone). *)
+Theorem C11_failed_batch_changes_nothing : forall n s body o s' rs r,
+  o <> OOk -> batch code_flows n s body o = Some (s', rs, r) ->
+  committed s' = committed s /\ writer s' = false /\ readers s' = readers s /\ r = Some o.
 Proof.
-  intros txs. destruct (run_txs_runs txs init_db eq_refl) as (s & rss & H & W).
-  exists s, rss. repeat split; auto. intros k body. apply run_tx_runs. exact W.
+  intros n s body o s' rs r N H. destruct C11_code_skeleton_safe as (_ & _ & (S & F)).
+  rewrite batch_attempts_irrelevant in H.
+  destruct (managed_rw_rolled_back _ _ _ _ _ _ _ (safe_rw_failed _ _ S N) H) as (A & B & C & D).
+  rewrite (faithful_all _ o F) in D. auto.
+Qed.
+Print Assumptions C11_failed_batch_changes_nothing.
+
+(** The premise about the code is needed: for ANY skeleton, if the path taken
+    ends in Commit the closure's changes become the committed tree, and if it
+    ends the transaction in neither way every later read-write transaction
+    blocks for ever; a View path that does not roll back leaves a read
+    transaction open and Close never returns. *)
+Theorem C11_rollback_premise_needed : forall f s body o s' rs r,
+  managed_rw f s body o = Some (s', rs, r) ->
+  (ends f o = TCommit -> committed s' = normalize (fst (run_ops true (committed s) body))) /\
+  (ends f o = TLeak -> forall g body2 o2, managed_rw g s' body2 o2 = None) /\
+  (forall g body2 o2, ends g o2 <> TRollback ->
+     reopen (fst (fst (managed_ro g s' body2 o2))) = None).
+Proof.
+  intros f s body o s' rs r H. repeat split.
+  - intros E. exact (managed_rw_commit_keeps_changes _ _ _ _ _ _ _ E H).
+  - intros E g body2 o2. exact (managed_rw_leak_blocks _ _ _ _ _ _ _ g body2 o2 E H).
+  - intros g body2 o2 E. apply (managed_ro_leaks g s' body2 o2 E).
+Qed.
+Print Assumptions C11_rollback_premise_needed.
+
+(** ... and the database stays usable: whatever mix of committed, failed and
+    panicking updates, batches, views and manual transactions has run, the
+    writer lock is free and no read transaction is open afterwards, so the next
+    transaction of any kind begins and runs ([None] would be a
+    BeginReadWriteTx that blocks for ever) and Close returns. *)
+Theorem C11_db_usable_after_any_history : forall txs,
+  exists s rss, run_txs code_flows init_db txs = Some (s, rss) /\ writer s = false /\ readers s = 0 /\
+    (forall k body, exists s' rs o, run_tx code_flows s k body = Some (s', rs, o) /\ writer s' = false /\ readers s' = 0) /\
+    (exists s', reopen s = Some s' /\ committed s' = committed s).
+Proof.
+  intros txs. destruct (run_txs_runs code_flows txs C11_code_skeleton_safe init_db quiet_init) as (s & rss & H & Q).
+  exists s, rss. destruct Q as [W R]. repeat split; auto.
+  - intros k body. destruct (run_tx_runs code_flows s k body C11_code_skeleton_safe (conj W R)) as (s' & rs & o & T & W' & R').
+    eauto 8.
+  - destruct (reopen_quiet s (conj W R)) as (s' & A & B & _). eauto.
 Qed.
 Print Assumptions C11_db_usable_after_any_history.
 
-(** (b) A closure that returns nil: the committed tree becomes the working
-    copy the closure ended with (nil slices stored as empty), i.e. every name
-    it bound is bound and every name it removed is gone, together; the reported
-    results are those of the working copy; every later view reads it and
-    every later update starts from it. *)
-Theorem C11_commit_makes_all_changes_visible_together : forall s body s' rs o',
-  update s body OOk = Some (s', rs, o') ->
+(** (b) A managed call that returns nil: the closure returned nil (the
+    skeleton returns nil on no other path), the committed tree becomes the
+    working copy the closure ended with (nil slices stored as empty), i.e.
+    every name it bound is bound and every name it removed is gone, together;
+    the reported results are those of the working copy; every later view reads
+    it and every later update starts from it. *)
+Theorem C11_commit_makes_all_changes_visible_together : forall s body s' rs r,
+  update code_flows s body OOk = Some (s', rs, r) ->
   let w := fst (run_ops true (committed s) body) in
+  r = Some OOk /\
   committed s' = normalize w /\
   rs = snd (run_ops true (committed s) body) /\
   (forall p k, lookup p k (committed s') = option_map norm_ent (lookup p k w)) /\
-  (forall body2 o2, snd (fst (view s' body2 o2)) = snd (run_ops false (committed s') body2)) /\
+  (forall body2 o2, snd (fst (view code_flows s' body2 o2)) = snd (run_ops false (committed s') body2)) /\
   (exists s1, begin_rw s' = Some (s1, committed s')).
 Proof.
-  intros s body s' rs o' H. destruct (update_committed _ _ _ _ _ H) as (C & R & W & _).
+  intros s body s' rs r H. destruct C11_code_skeleton_safe as ((S & F) & _).
+  destruct (update_committed code_flows _ _ _ _ _ S F H) as (C & R & W & _ & RET).
   repeat split; auto.
   - intros p k. rewrite C. apply lookup_normalize.
+  - intros body2 o2. apply (proj1 (managed_ro_results _ _ _ _)).
   - unfold begin_rw. rewrite W. eauto.
 Qed.
 Print Assumptions C11_commit_makes_all_changes_visible_together.
 
+(** ... a nil return is never a rolled-back call: if Update, Batch or View
+    of the code returns nil, the closure returned nil. *)
+Theorem C11_nil_return_means_closure_returned_nil : forall o,
+  (returns (fl_update code_flows) o = Some OOk -> o = OOk) /\
+  (returns (fl_batch code_flows) o = Some OOk -> o = OOk) /\
+  (returns (fl_view code_flows) o = Some OOk -> o = OOk).
+Proof.
+  intros o. destruct C11_code_skeleton_safe as ((_ & FU) & (_ & FV) & (_ & FB)).
+  repeat split; intros H;
+    [rewrite (faithful_all _ o FU) in H|rewrite (faithful_all _ o FB) in H|rewrite (faithful_all _ o FV) in H];
+    injection H as ->; reflexivity.
+Qed.
+Print Assumptions C11_nil_return_means_closure_returned_nil.
+
+(** walletdb.Batch, one caller: the closure may run several times; when it
+    returns nil its changes are applied exactly once (the committed tree is
+    ONE run of the body on the tree before), whatever the number of runs. *)
+Theorem C11_batch_applies_once : forall n s body s' rs r,
+  batch code_flows n s body OOk = Some (s', rs, r) ->
+  r = Some OOk /\ committed s' = normalize (fst (run_ops true (committed s) body)) /\
+  rs = snd (run_ops true (committed s) body) /\ writer s' = false /\ readers s' = readers s.
+Proof.
+  intros n s body s' rs r H. destruct C11_code_skeleton_safe as (_ & _ & ((C & _) & F)).
+  rewrite batch_attempts_irrelevant in H.
+  destruct (managed_rw_committed _ _ _ _ _ _ _ C H) as (A & B & W & R & D).
+  rewrite (faithful_all _ OOk F) in D. auto.
+Qed.
+Print Assumptions C11_batch_applies_once.
+
+(** Several goroutines in walletdb.Update (or walletdb.Batch) at once: every
+    interleaving of their moves (begin, one operation of the closure, end) that
+    the single-writer lock admits and that has come to rest is the serial run,
+    in some order without repetition, of exactly the calls that were made -
+    same committed tree, same results of every operation, same return values -
+    and in that serial run the calls whose closure failed or panicked leave no
+    trace: the tree is the one reached by the calls whose closure returned nil,
+    each applied exactly once.  PARTIAL in this sense: the lock is the model's
+    [writer] flag and every call is a transaction of its own; that bbolt's lock
+    is such a lock, and that bbolt's Batch - which runs the closures of one
+    batch one after the other inside ONE transaction and re-runs the survivors
+    when one of them fails - has the same outcome, is exercised by the
+    correspondence (serial order observed through a sequence counter), not
+    proved. *)
+Theorem C11_concurrent_updates_serializable : forall batch jobs s sch c,
+  let f := if batch : bool then fl_batch code_flows else fl_update code_flows in
+  run_sched f jobs (cinit s) sch = Some c -> quiescent c ->
+  exists order res,
+    NoDup order /\ run_serial f jobs s order = Some (c_db c, res) /\
+    map (fun x => fst (fst x)) res = order /\
+    (forall i rs ret, In (i, rs, ret) res -> c_thr c i = TDone rs ret) /\
+    (forall i, ~ In i order -> c_thr c i = TIdle) /\
+    exists res', run_serial f jobs s (filter (job_ok jobs) order) = Some (c_db c, res') /\
+                 res' = filter (fun x => job_ok jobs (fst (fst x))) res.
+Proof.
+  intros b jobs s sch c f H Q.
+  destruct (sched_serializable f jobs s sch c H Q) as (order & res & ND & R & M & TD & TI).
+  exists order, res. repeat split; auto.
+  apply (run_serial_failed_invisible f jobs order); [|exact R].
+  destruct C11_code_skeleton_safe as ((SU & _) & _ & (SB & _)). destruct b; assumption.
+Qed.
+Print Assumptions C11_concurrent_updates_serializable.
+
 (** "... and after the file is reopened": PARTIAL.  In the model a close and
-    reopen is the identity on the committed tree, so what was committed is what
-    a transaction after the reopen sees.  What is missing: that bbolt's file
-    really holds a committed transaction after Close/Open (and after a crash) -
-    durability and crash atomicity of the file are bbolt's and are trusted; the
-    check only exercises clean close+reopen on the real file. *)
-Theorem C11_reopen_sees_committed_partial : forall s,
-  committed (reopen s) = committed s /\ writer (reopen s) = false /\
-  forall body o, snd (fst (view (reopen s) body o)) = snd (run_ops false (committed s) body).
-Proof. intros s. repeat split. Qed.
+    reopen is the identity on the committed tree (and Close returns only when
+    no transaction is open), so what was committed is what a transaction after
+    the reopen sees.  What is missing: that bbolt's file really holds a
+    committed transaction after Close/Open (and after a crash) - durability and
+    crash atomicity of the file are bbolt's and are trusted; the check only
+    exercises clean close+reopen on the real file. *)
+Theorem C11_reopen_sees_committed_partial : forall s s',
+  reopen s = Some s' ->
+  writer s = false /\ readers s = 0 /\
+  committed s' = committed s /\ writer s' = false /\ readers s' = 0 /\
+  forall body o, snd (fst (view code_flows s' body o)) = snd (run_ops false (committed s) body).
+Proof.
+  intros s s'. unfold reopen. destruct (writer s) eqn:W; [discriminate|].
+  destruct (0 <? readers s) eqn:R; [discriminate|]. simpl. intros [= <-].
+  apply N.ltb_ge in R. repeat split; auto; [lia|]. intros body o.
+  exact (proj1 (managed_ro_results (fl_view code_flows) {| committed := committed s; writer := false; readers := 0 |} body o)).
+Qed.
 Print Assumptions C11_reopen_sees_committed_partial.
 
 (** Committed trees are well formed (every bucket strictly ascending by name,
     so no name is both a key and a nested bucket) and contain no nil values;
-    working copies stay well formed during a transaction. *)
+    working copies stay well formed during a transaction.  Holds for every
+    skeleton, hence for the code's. *)
 Theorem C11_reachable_states_well_formed : forall txs s rss,
-  run_txs init_db txs = Some (s, rss) ->
+  run_txs code_flows init_db txs = Some (s, rss) ->
   wf (committed s) /\ normalize (committed s) = committed s /\
   forall w ops, wf (fst (run_ops w (committed s) ops)).
 Proof.
-  intros txs s rss H. destruct (run_txs_good txs _ _ _ good_init H) as [W N].
+  intros txs s rss H. destruct (run_txs_good code_flows txs _ _ _ good_init H) as [W N].
   repeat split; auto. intros w ops. apply run_ops_wf. exact W.
 Qed.
 Print Assumptions C11_reachable_states_well_formed.
@@ -96,20 +238,23 @@ Qed.
 Print Assumptions C11_read_your_writes.
 
 (** (d) On a read-only transaction every operation leaves the working copy
-    unchanged, and every mutating call reports the not-writable error
-    (walletdb.ErrTxNotWritable; bbolt's own error value for NextSequence and
-    SetSequence, which bdb does not convert); hence a view of any body never
-    changes the database. *)
+    unchanged, and every mutating call reports an error
+    (walletdb.ErrTxNotWritable for Put / Delete / CreateBucket(IfNotExists) /
+    DeleteNestedBucket / Cursor.Delete; some error for NextSequence and
+    SetSequence, where bdb hands out bbolt's own error value - its class is
+    recorded as drift only); hence a view of any body never changes the
+    database (with the code's skeleton: the read transaction is closed again). *)
 Theorem C11_readonly_cannot_modify :
   (forall o root root' r, exec_op false o root = (root', r) ->
      root' = root /\ (r = RNoBucket \/ not_writable_result (snd o) r)) /\
   (forall ops root, fst (run_ops false root ops) = root) /\
-  (forall s body o, fst (fst (view s body o)) = s).
+  (forall s body o, fst (fst (view code_flows s body o)) = s).
 Proof.
-  repeat split.
-  - eapply exec_op_readonly; eauto.
-  - destruct (exec_op_readonly _ _ _ _ H) as [_ X]. exact X.
-  - apply run_ops_readonly.
+  split; [|split].
+  - intros o root root' r H. exact (exec_op_readonly _ _ _ _ H).
+  - intros ops root. apply run_ops_readonly.
+  - intros s body o. apply (view_unchanged code_flows s body o).
+    destruct C11_code_skeleton_safe as (_ & (S & _) & _). exact S.
 Qed.
 Print Assumptions C11_readonly_cannot_modify.
 
@@ -200,7 +345,7 @@ Example C11_nonvacuous_atomicity :
   let t2 := (KUpdate OErr, [([ex_a], Put ex_k1 (Some [2])); ([ex_a], Get ex_k1); ([ex_a], CreateBucket ex_b)]) in
   let t3 := (KUpdate OPanic, [([ex_a], Delete ex_k1); ([ex_a], Get ex_k1)]) in
   let t4 := (KView OOk, [([ex_a], Get ex_k1); ([ex_a], Put ex_k1 None); ([ex_a], Nested ex_b)]) in
-  option_map snd (run_txs init_db [t1; t2; t3; t4]) =
+  option_map snd (run_txs code_flows init_db [t1; t2; t3; t4]) =
   Some [ [RErr None; RErr None];
          [RErr None; RVal (Some [2]); RErr None];
          [RErr None; RVal None];
@@ -216,7 +361,7 @@ Example C11_nonvacuous_cursor :
                ([ex_a], Get ex_k1);
                ([ex_a], Cursor [CFirst; CNext; CNext; CNext; CNext; CPrev; CSeek [1]; CDelete; CSeek [98]; CDelete]);
                ([ex_a], Cursor [CLast; CPrev; CPrev; CPrev])] in
-  option_map (fun x => snd (fst x)) (update init_db body OOk) =
+  option_map (fun x => snd (fst x)) (update code_flows init_db body OOk) =
   Some [ RErr None; RErr None; RErr None; RErr None; RErr None; RErr (Some EIncompatibleValue);
          RVal None;
          RCur [CKV (Some (ex_k0, Some [7])); CKV (Some (ex_b, None)); CKV (Some (ex_k1, None));
@@ -225,6 +370,27 @@ Example C11_nonvacuous_cursor :
                CKV (Some (ex_b, None)); CErr (Some EIncompatibleValue)];
          RCur [CKV (Some (ex_kff, Some [])); CKV (Some (ex_k1, None)); CKV (Some (ex_b, None));
                CKV (Some (ex_k0, Some [7]))] ] /\
-  option_map (fun x => lookup [ex_a] ex_k1 (committed (fst (fst x)))) (update init_db body OOk)
+  option_map (fun x => lookup [ex_a] ex_k1 (committed (fst (fst x)))) (update code_flows init_db body OOk)
     = Some (Some (inl (Some []))).
 Proof. vm_compute. split; reflexivity. Qed.
+
+(** Batch and concurrency: a failing batch (run twice by bbolt) leaves nothing,
+    a committed one is applied once; three goroutines, interleaved as far as
+    the lock admits (the second cannot begin before the first has ended), end
+    in the serial result of the two whose closure returned nil. *)
+Example C11_nonvacuous_batch_and_schedule :
+  let mk := ([], CreateBucketIfNotExists ex_a) in
+  let jobs := [Job [mk; ([ex_a], NextSequence); ([ex_a], Put ex_k0 (Some [1]))] OOk;
+               Job [mk; ([ex_a], NextSequence); ([ex_a], Put ex_k0 (Some [2]))] OErr;
+               Job [mk; ([ex_a], NextSequence); ([ex_a], Get ex_k0); ([ex_a], Put ex_k1 (Some [3]))] OOk] in
+  option_map (fun x => committed (fst (fst x)))
+             (batch code_flows 1 init_db [mk; ([ex_a], Put ex_k0 (Some [9]))] OErr) = Some empty_bkt /\
+  sched_step (fl_update code_flows) jobs
+     (CState {| committed := empty_bkt; writer := true; readers := 0 |} (fun _ => TIdle)) 1%nat = None /\
+  option_map (fun c => (committed (c_db c), c_thr c 1%nat, c_thr c 2%nat))
+     (run_sched (fl_update code_flows) jobs (cinit init_db)
+        [2; 2; 2; 2; 2; 2; 1; 1; 1; 1; 1; 0; 0; 0; 0; 0]%nat) =
+  Some (Bkt 0 [(ex_a, inr (Bkt 2 [(ex_k0, inl (Some [1])); (ex_k1, inl (Some [3]))]))],
+        TDone [RErr None; RNumErr 2 None; RErr None] (Some OErr),
+        TDone [RErr None; RNumErr 1 None; RVal None; RErr None] (Some OOk)).
+Proof. vm_compute. repeat split; reflexivity. Qed.
